@@ -1,8 +1,10 @@
+use crate::streaming::segments::INDEX_SIZE;
 use crate::streaming::utils::file;
 use crate::{
     server_error::CompatError, streaming::batching::message_batch::RETAINED_BATCH_HEADER_LEN,
 };
 use std::io::SeekFrom;
+use tokio::fs::OpenOptions;
 use tokio::io::{AsyncReadExt, AsyncSeekExt, AsyncWriteExt, BufReader, BufWriter};
 
 // Same struct as RetainedMessageBatch, but without payload
@@ -64,20 +66,40 @@ impl IndexRebuilder {
     }
 
     pub async fn rebuild(&self) -> Result<(), CompatError> {
+        self.rebuild_from_complete_batches().await.map(|_| ())
+    }
+
+    /// Writes one index entry per batch that is completely present in the log and returns the
+    /// size of that part of the log. A trailing batch whose header or payload was only partially
+    /// written (unclean shutdown) gets no entry.
+    async fn rebuild_from_complete_batches(&self) -> Result<u64, CompatError> {
+        let log_size = tokio::fs::metadata(&self.log_path).await?.len();
         let mut reader = BufReader::new(file::open(&self.log_path).await?);
         let mut writer = BufWriter::new(file::overwrite(&self.index_path).await?);
-        let mut position = 0;
-        let mut next_position;
+        let mut position = 0u64;
+        let mut entries = 0u64;
 
         loop {
             match Self::read_batch_header(&mut reader).await {
                 Ok(header) => {
                     // Calculate next position before writing current entry
-                    next_position = position + RETAINED_BATCH_HEADER_LEN as u32 + header.length;
+                    let next_position = position + RETAINED_BATCH_HEADER_LEN + header.length as u64;
+                    if next_position > log_size
+                        || header.base_offset + (header.last_offset_delta as u64)
+                            < self.start_offset
+                    {
+                        break;
+                    }
 
                     // Write index entry using current position
-                    Self::write_index_entry(&mut writer, &header, position, self.start_offset)
-                        .await?;
+                    Self::write_index_entry(
+                        &mut writer,
+                        &header,
+                        position as u32,
+                        self.start_offset,
+                    )
+                    .await?;
+                    entries += 1;
 
                     // Skip batch messages
                     reader.seek(SeekFrom::Current(header.length as i64)).await?;
@@ -91,6 +113,64 @@ impl IndexRebuilder {
         }
 
         writer.flush().await?;
-        Ok(())
+        // The index file is not truncated when it is opened: drop whatever it held beyond
+        // the entries just written.
+        let index_file = writer.into_inner();
+        index_file.set_len(entries * INDEX_SIZE).await?;
+        index_file.sync_all().await?;
+        Ok(position)
+    }
+
+    /// Tells whether the index ends exactly where the log ends, i.e. whether its last entry
+    /// describes the last batch of the log. Appends go to the log first and to the index
+    /// second, neither atomically, so after an unclean shutdown this may not be the case.
+    async fn is_consistent_with_log(&self) -> Result<bool, CompatError> {
+        let log_size = tokio::fs::metadata(&self.log_path).await?.len();
+        let index_size = match tokio::fs::metadata(&self.index_path).await {
+            Ok(metadata) => metadata.len(),
+            Err(e) if e.kind() == std::io::ErrorKind::NotFound => return Ok(false),
+            Err(e) => return Err(e.into()),
+        };
+        if index_size % INDEX_SIZE != 0 {
+            return Ok(false);
+        }
+        if index_size == 0 {
+            return Ok(log_size == 0);
+        }
+
+        let mut index = file::open(&self.index_path).await?;
+        index.seek(SeekFrom::Start(index_size - INDEX_SIZE)).await?;
+        let offset = index.read_u32_le().await? as u64;
+        let position = index.read_u32_le().await? as u64;
+        if position + RETAINED_BATCH_HEADER_LEN > log_size {
+            return Ok(false);
+        }
+
+        let mut log = BufReader::new(file::open(&self.log_path).await?);
+        log.seek(SeekFrom::Start(position)).await?;
+        let header = Self::read_batch_header(&mut log).await?;
+        Ok(
+            position + RETAINED_BATCH_HEADER_LEN + header.length as u64 == log_size
+                && header.base_offset + header.last_offset_delta as u64
+                    == self.start_offset + offset,
+        )
+    }
+
+    /// Brings the log and the index of a segment back in line after an unclean shutdown:
+    /// unless the index already ends where the log ends, a partially written trailing batch
+    /// is cut off the log and the index is regenerated from the complete batches.
+    /// Returns true if the segment had to be repaired.
+    pub async fn recover(&self) -> Result<bool, CompatError> {
+        if self.is_consistent_with_log().await? {
+            return Ok(false);
+        }
+
+        let valid_log_size = self.rebuild_from_complete_batches().await?;
+        let log_file = OpenOptions::new().write(true).open(&self.log_path).await?;
+        if log_file.metadata().await?.len() > valid_log_size {
+            log_file.set_len(valid_log_size).await?;
+            log_file.sync_all().await?;
+        }
+        Ok(true)
     }
 }
